@@ -195,7 +195,8 @@ def _check_equal(ctx, f, r, inst, site="from_xarray(to_xarray)", tolerance=True)
         ctx.fail(f"{site}/dtype", f"dtype {f.array.dtype} came back as {r.array.dtype}", instance=inst)
     if _labels(r) != _labels(f):
         cls = "scalar-with-label" if f.nvdim == 1 else "vector"
-        ctx.fail(f"{site}/labels/{cls}", f"labels {_labels(f)} came back as {_labels(r)}", instance=inst)
+        ctx.fail(f"{site}/labels/{cls}", f"labels {_labels(f)} came back as {_labels(r)}",
+                 instance=(f"nvdim=1;labels={_labels(f)};read={_labels(r)}" if f.nvdim == 1 else inst))
     if tolerance and r.mesh.region.tolerance_factor != f.mesh.region.tolerance_factor:
         ctx.fail(f"{site}/region-tolerance", f"tolerance_factor {f.mesh.region.tolerance_factor} came back as "
                  f"{r.mesh.region.tolerance_factor}", instance=inst)
